@@ -60,7 +60,12 @@ Docs ==
    d9 |-> << D("JSIGHT", <<"0.3">>, FALSE, "", ""),
              D("TYPE", <<"@tarr">>, FALSE, "arr", ""),
              D("GET", <<"pa">>, FALSE, "", ""), D("RESP", <<"any">>, FALSE, "", "200"), D("Headers", <<>>, FALSE, "reftarr", ""),
-             D("GET", <<"pb">>, FALSE, "", ""), D("RESP", <<"any">>, FALSE, "", "200") >>]
+             D("GET", <<"pb">>, FALSE, "", ""), D("RESP", <<"any">>, FALSE, "", "200") >>,
+   \* rejected for one reason only: a MACRO definition stands before JSIGHT; wherever the cut puts the definition,
+   \* the first directive of the project is still that MACRO
+   d10 |-> << D("MACRO", <<"@m1">>, TRUE, "", ""), D("RESP", <<"any">>, FALSE, "", "200"), CloseTok,
+              D("JSIGHT", <<"0.3">>, FALSE, "", ""),
+              D("GET", <<"pa">>, FALSE, "", ""), D("PASTE", <<"@m1">>, FALSE, "", "") >>]
              \* a method with its Path child, written identically under two resources: legal reuse of one piece
 
 FileNames == <<"a.jst", "b.jst", "c.jst">>
